@@ -78,6 +78,13 @@ void* vp_memset(void* p, int c, size_t n) { u64 i = 0; u64 w = 0x010101010101010
   for (; i < n; i++) ((u8*)p)[i] = (u8)c;
   return p; }
 #endif
+/* graph::reset(): r1::reset(task_group_context&) clears the cancellation state of the context (the harness keeps that state itself: `cancelled`);
+   prepare_task_arena(reinit): r1::attach / initialize / terminate of the graph's task_arena - no arena in this model */
+static unsigned n_ctx_reset;
+void _ZN3tbb6detail2r15resetERNS0_2d118task_group_contextE(struct S_class_tbb__detail__d1__task_group_context* c) { n_ctx_reset++; }
+u8 _ZN3tbb6detail2r16attachERNS0_2d115task_arena_baseE(struct S_class_tbb__detail__d1__task_arena_base* a) { return 1; }
+void _ZN3tbb6detail2r110initializeERNS0_2d115task_arena_baseE(struct S_class_tbb__detail__d1__task_arena_base* a) { }
+void _ZN3tbb6detail2r19terminateERNS0_2d115task_arena_baseE(struct S_class_tbb__detail__d1__task_arena_base* a) { }
 /* take a task out of the bag: which = 0 oldest, 1 newest */
 static void* bag_take(int newest) {
   void* t;
